@@ -1060,6 +1060,22 @@ pub ghost struct StView { pub user_name: UserName, pub key: HMACKey, pub integri
 pub ghost struct LtView { pub user_name: UserName, pub password: Seq<char>, pub params: Option<LongTermCredentialAttributes>, pub state: LongTermCredentialState }
 pub ghost enum MechState { St(StView), Lt(LtView) }
 //@item! stun_agent :: mod client > enum CredentialMechanismClient
+// C13: the attribute set after the mechanism has prepared a request / an indication
+pub open spec fn mech_prepared_request(m: CredentialMechanismClient, s0: StunAttributes, s1: StunAttributes) -> bool {
+    match m {
+        CredentialMechanismClient::ShortTerm(c) => st_prepared(c, s0, s1),
+        CredentialMechanismClient::LongTerm(c) => s1.fingerprint == s0.fingerprint && (
+            if c.state is FirstRequest {
+                s1.attributes@ == lt_cleared(s0.attributes@) && s1.integrity is None && s1.integrity_sha256 is None
+            } else { lt_prepared(c, s0, s1) }),
+    }
+}
+pub open spec fn mech_prepared_indication(m: CredentialMechanismClient, s0: StunAttributes, s1: StunAttributes) -> bool {
+    match m {
+        CredentialMechanismClient::ShortTerm(c) => st_prepared(c, s0, s1),
+        CredentialMechanismClient::LongTerm(c) => false,    // long-term credentials refuse indications (Err(Ignored))
+    }
+}
 impl CredentialMechanismClient {
     // everything but the protection-violated markers
     pub open spec fn st(&self) -> MechState {
@@ -1102,16 +1118,19 @@ impl CredentialMechanismClient {
 //@spec
     requires old(self).wf(), old(attributes).wf(),
     ensures final(self).wf(), final(attributes).wf(),
-            final(self).violated() == old(self).violated(),
+            final(self).violated() == old(self).violated(), final(self).st() == old(self).st(),
             r is Err ==> !(r->Err_0 is MaxOutstandingRequestsReached),
+            // C13: what the mechanism makes of the application's attributes (see st_prepared / lt_prepared)
+            r is Ok ==> mech_prepared_request(*old(self), *old(attributes), *final(attributes)),
 //@end
 //@item stun_agent :: mod client > impl CredentialMechanismClient > fn prepare_indication
 //@tags C13 C07 C08
 //@spec
     requires old(self).wf(), old(attributes).wf(),
     ensures final(self).wf(), final(attributes).wf(),
-            final(self).violated() == old(self).violated(),
+            final(self).violated() == old(self).violated(), final(self).st() == old(self).st(),
             r is Err ==> !(r->Err_0 is MaxOutstandingRequestsReached),
+            r is Ok ==> mech_prepared_indication(*old(self), *old(attributes), *final(attributes)),
 //@end
 }
 proof fn vx_sentinel() ensures false {}
